@@ -217,7 +217,78 @@ def pdata_content_cell(state: int, requestor: bool, timer_running: bool, ctrl: i
     return ok
 
 
+def _pdu_type_of(evt):
+    return ref.EVENT_PDU.get(evt)
+
+
+def _pair(evt1, evt2, state, requestor, timer_running):
+    """two consecutive actions from (state, role, ARTIM) on one state machine, compared with the reference machine"""
+    from vt.refs import ul_machine as ulm
+    r = ulm.RefUL(True)
+    r.requestor = requestor
+    r.state, r.artim, r.transport = state + 1, timer_running, not (evt1 == 1 and state == 0)
+    sock = sim.SimSocket()
+    prov = sim.make_provider(None if requestor else sock)
+    sm = prov.state_machine
+    timer = sim.RecTimer(timer_running)
+    prov.timer = sm.timer = timer
+    sockmod = sim.SocketModule()
+    sockmod.socket = lambda *a: sock
+    fsm.socket = sockmod
+    prov.dul_socket = sock if r.transport else None
+    prov.event.clear()
+    sm.current_state = state
+    want_sent, want_ind = [], []
+    for evt in (evt1, evt2):
+        try:
+            s_, i_ = r.step(evt, _pdu_type_of(evt))
+        except ulm.Undefined:
+            return None                      # not a defined sequence
+        if evt == 2 and not r.transport:
+            return None
+        want_sent += s_
+        want_ind += i_
+        prov.primitive = make_primitive(evt, 1, 2, b'\x03\x00')
+        if evt == 17 and prov.dul_socket is not None:
+            prov.dul_socket.close()          # what the reader does before it raises Evt17
+            prov.dul_socket = None
+        try:
+            sm.action(evt - 1)
+        except Exception:
+            return False
+        if sm.current_state != r.state - 1:
+            return False
+    got_sent = [x[0] for x in sock.sent]
+    got_ind = ['dimse' if isinstance(o, tuple) else getattr(o, 'pdu_type', '?') for o in prov.to_service_user.log]
+    return (got_sent == want_sent and got_ind == want_ind and timer.running == r.artim
+            and (prov.dul_socket is not None) == r.transport)
+
+
+@cond(bounds='(thorough tier) every defined SEQUENCE OF TWO events: first event per instance, second event and the start state '
+             'symbolic selectors (19 x 13), role and ARTIM pre-state symbolic: the state machine object carries exactly '
+             'the reference machine\'s state, timer, connection and outputs from the first action into the second',
+      family={'evt': list(range(1, 20))}, timeout=240, thorough_timeout=600, tiers=('thorough',))
+def cell_pair(evt2: int, state: int, requestor: bool, timer_running: bool) -> bool:
+    """
+    pre: 1 <= evt2 <= 19 and 0 <= state <= 12
+    post: _
+    """
+    from vt.api import pick
+    evt2, state = pick(evt2, 1, 19), pick(state, 0, 12)
+    requestor, timer_running = bool(pick(int(requestor), 0, 1)), bool(pick(int(timer_running), 0, 1))
+    with sim._no_tracing():
+        res = _pair(fam('evt'), evt2, state, requestor, timer_running)
+    if res is None:
+        return True
+    deep(res)
+    return res
+
+
 def explain(cname, args, famv):
+    if cname == 'cell_pair':
+        return 'Evt%d then Evt%d from Sta%d (%s, ARTIM %s): the state machine disagrees with the reference machine' % (
+            famv['evt'], args['evt2'], args['state'] + 1, 'requestor' if args['requestor'] else 'acceptor',
+            'running' if args['timer_running'] else 'stopped')
     if cname == 'pdata_content_cell':
         return 'P-DATA-TF with control byte %d + %r in Sta%d: fragment of an incomplete message -> nothing happens; ' \
                'otherwise invalid PDU -> Evt19 effect %r' % (args['ctrl'], args['data'], args['state'] + 1,
